@@ -17,25 +17,24 @@ theorem bal_newUnit (id : Nat) : Bal (newUnit id).serialize := by simp [Bal, new
 
 theorem bal_update {s s' : State} {e : Entry} (h : BalState s) (hu : update s e = .ok s') : BalState s' := by
   unfold update at hu
-  split at hu
-  · cases hu; exact h
-  · split at hu
-    · cases hu; exact h
-    · rename_i _ hv
-      have hv' : e.valid = true := by simpa using hv
-      unfold MemUnit.add at hu
-      split at hu
-      · cases hu
-      · rename_i hr
-        cases hu
+  by_cases h1 : (!s.enabled || s.limit == 0) = true
+  · simp only [h1, if_true, Except.ok.injEq] at hu; subst hu; exact h
+  · by_cases hv : e.valid = true
+    · by_cases hr : e.result < 0 ∨ e.result ≥ 6
+      · simp [h1, hv, MemUnit.add, hr] at hu
+      · simp only [h1, hv, MemUnit.add, hr, if_false, Bool.not_true, Bool.false_eq_true, Except.ok.injEq] at hu
+        subst hu
         refine ⟨?_, h.2⟩
         have h0 : ¬ e.result = 0 := by
-          intro h0; simp [Entry.valid, h0] at hv'
+          intro h0; simp [Entry.valid, h0] at hv
         have hb := h.1
         simp only [Bal, MemUnit.serialize] at hb ⊢
         have hcases : e.result.toNat = 1 ∨ e.result.toNat = 2 ∨ e.result.toNat = 3 ∨ e.result.toNat = 4 ∨
             e.result.toNat = 5 := by omega
         rcases hcases with hc | hc | hc | hc | hc <;> simp [hc] <;> omega
+    · have hv' : e.valid = false := by simpa using hv
+      simp [h1, hv'] at hu
+      subst hu; exact h
 
 theorem bal_updateN {s : State} (e : Entry) (n : Nat) (h : BalState s) : BalState (updateN s e n).1 := by
   induction n generalizing s with
@@ -47,10 +46,11 @@ theorem bal_updateN {s : State} (e : Entry) (n : Nat) (h : BalState s) : BalStat
     | error f => simp only []; exact ih h
 
 theorem bal_flush {s : State} (h : BalState s) : BalState (flush s) := by
-  unfold flush
-  split
-  · exact h
-  · refine ⟨bal_newUnit _, ?_⟩
+  simp only [flush]
+  by_cases hc : s.limitHours = 0 ∨ s.curr.id = s.clock
+  · simp only [hc, if_true]; exact h
+  · simp only [hc, if_false]
+    refine ⟨bal_newUnit _, ?_⟩
     intro x hx
     rcases mem_put (mem_del hx) with hx | hx
     · rw [hx]; exact h.1
